@@ -3786,7 +3786,9 @@ def c05(tier):
         vlib.write_ndjson(progs, lines + shards[k])
         vlib.run_harness(["pexec", progs, trace, "90"], timeout=7200)
         ev = vlib.read_ndjson(trace)
-        if len(ev) != len(shards[k]):
+        # (a shard ends early after three crashed or stalled cases - each of them is in the trace as a hang/abort event)
+        crashed = sum(1 for e in ev if e.get("hang") or e.get("abort"))
+        if len(ev) != len(shards[k]) and crashed < 3:
             raise ToolTrouble("pexec produced %d events for %d cases" % (len(ev), len(shards[k])))
         out, last = [], None
         for e in ev:
